@@ -113,7 +113,7 @@ PROPS = {
              assumptions=["calendar arithmetic (time.AddDate) enters the model as facts that the executor re-checks against Go's time package",
                           "legacy parameter-store content is written through the legacy subspace (amino JSON), as the v1.2.0 handler reads it; nil entries / nil decimals cannot be stored that way and are skipped"]),
     "C11": P(["C4E.Props.C11", "C4E.Tie.C11"], ["C4E.Props.C11"],
-             [("distrupd", 80, 1200), ("distr", 80, 1200), ("minterupd", 60, 800), ("vest", 100, 1500), ("split", 50, 600), ("sig", 50, 600), ("minter", 60, 800)],
+             [("distrupd", 80, 1200), ("distr", 80, 1200), ("minterupd", 60, 800), ("vest", 100, 1500), ("split", 50, 600), ("sig", 50, 600), ("minter", 60, 800), ("upgrade", 60, 900)],
              {"d.bb": ["states", "main", "ev"], "m.block": ["amt", "st"], "v.withdraw": ["paid", "ev"], "d.params": "*", "d.update": "*", "s.store": "*"},
              twin=True,
              assumptions=["Go map iteration order, goroutine scheduling, pointer values and iavl/tm-db internals cannot be exhibited by a functional model: they are covered by the regenerated list of nondeterminism sites and by two-process runs (bounded exploration)",
